@@ -426,6 +426,18 @@ fn canonical_f4() -> (Header, Vec<O>) {
     (Header { cap: 1, poll: false, tokv: false }, ops)
 }
 
+/// `repinHistory` of Lemmas/TinyLfuUnpinSeed.lean (witness `unpin_forgetting_unconfirmed_leaks` of Props/C16.lean),
+/// capacity 1, Notify: key 0 is written pinned, parked in the Pinned region, flushed, re-written before the maintenance
+/// pass that processes its `Unpinned` message (the storage refuses the removal: `Policy::unpin` must keep tracking it),
+/// flushed again, two more passes; then key 0 must be gone and 2 entries resident.
+fn canonical_repin() -> (Header, Vec<O>) {
+    let fill = |ops: &mut Vec<O>, base: u64, n: u64| for k in base..base + n { ops.push(O::Put(k, 0)); };
+    let mut ops = vec![]; fill(&mut ops, 1000, 4); ops.extend([O::Pin(0), O::Put(0, 1)]); fill(&mut ops, 1100, 33);
+    ops.extend([O::UnpinN(0), O::Pin(0), O::Put(0, 2)]); fill(&mut ops, 1200, 33); ops.push(O::UnpinN(0)); fill(&mut ops, 1300, 33); fill(&mut ops, 1400, 26);
+    ops.extend([O::Peek(0), O::Len]);
+    (Header { cap: 1, poll: false, tokv: false }, ops)
+}
+
 /// `Poll` adversary (see `bounded_poll_slack32_refuted` in Props/C16.lean): `b` keys stay pinned for ever and sit
 /// in the pinned region; every round pins 33 fresh keys, inserts them (the 33rd insert runs maintenance) and
 /// silently releases them.  The trim loop stops at the first still-pinned entry, so released entries survive.
@@ -697,6 +709,9 @@ fn main() {
         // the history of the FIXED finding F4 must run clean (a panic here = the defect is back)
         { let (h, ops) = canonical_f4(); let co = replay_ops(&h, &ops, &mut st); emit(&co, &mut out); evals += 1;
           if let Some(fl) = &co.fail { fails.push((fl.sig.clone(), format!("[history of fixed finding F4] {}", fl.desc), case_text(&h, &ops[..=fl.at]))); } }
+        // the Lean witness history of `Policy::unpin`'s "only when the storage confirmed" condition, on the real cache
+        { let (h, ops) = canonical_repin(); let co = replay_ops(&h, &ops, &mut st); emit(&co, &mut out); evals += 1;
+          for fl in [co.soft_also, co.fail].into_iter().flatten() { fails.push((fl.sig.clone(), format!("[repinHistory of Props/C16.lean] {}", fl.desc), case_text(&h, &ops[..=fl.at.min(ops.len() - 1)]))); } }
         // finding F15, canonical: 2 blockers, 2 rounds (= `pollAdversary` of Props/C16.lean)
         { let (h, ops) = poll_adversary(2, 2); let mut st2 = Stats::default();
           let co = replay_ops(&h, &ops, &mut st2); emit(&co, &mut out); evals += 1;
